@@ -4,6 +4,7 @@
 package sweep
 
 import (
+	"fmt"
 	"go/ast"
 	"go/token"
 	"go/types"
@@ -180,6 +181,7 @@ func LogOverlay(repo string, everyBlock bool) (map[string][]byte, int, error) {
 // RestructureOverlay rewrites control structure without changing behaviour:
 //   - mode "negif": `if c { A } else { B }`  =>  `if !(c) { B } else { A }`
 //   - mode "guard": a trailing `if c { A }` of a for body  =>  `if !(c) { continue }; { A }`
+//
 // Only statements that contain no other candidate are rewritten (edits never overlap).
 func RestructureOverlay(repo, mode string) (map[string][]byte, int, error) {
 	fset, pkgs, err := loadForRewrite(repo, false)
@@ -271,6 +273,119 @@ func RestructureOverlay(repo, mode string) (map[string][]byte, int, error) {
 			for _, e := range edits {
 				src = append(src[:e.from], append([]byte(e.text), src[e.to:]...)...)
 				n++
+			}
+			out[name] = src
+		}
+	}
+	return out, n, nil
+}
+
+// HoistOverlay extracts the first call-valued argument of statement-level calls into a fresh local
+// (`f(a, g(x))` => `hoistN := g(x); f(a, hoistN)`), when no earlier operand of the call contains a
+// call (evaluation order is kept). SSA sees the same values.
+func HoistOverlay(repo string) (map[string][]byte, int, error) {
+	fset, pkgs, err := loadForRewrite(repo, true)
+	if err != nil {
+		return nil, 0, err
+	}
+	out := map[string][]byte{}
+	n := 0
+	for _, p := range pkgs {
+		for _, f := range p.Syntax {
+			name := fset.Position(f.Pos()).Filename
+			if strings.HasSuffix(name, "_test.go") {
+				continue
+			}
+			src, err := os.ReadFile(name)
+			if err != nil {
+				return nil, 0, err
+			}
+			off := func(pos token.Pos) int { return fset.Position(pos).Offset }
+			hasCall := func(e ast.Expr) bool {
+				found := false
+				ast.Inspect(e, func(nd ast.Node) bool {
+					switch nd.(type) {
+					case *ast.CallExpr, *ast.FuncLit, *ast.UnaryExpr:
+						found = true
+					}
+					return !found
+				})
+				return found
+			}
+			type edit struct {
+				from, to int
+				text     string
+			}
+			var edits []edit
+			ast.Inspect(f, func(nd ast.Node) bool {
+				blk, ok := nd.(*ast.BlockStmt)
+				if !ok {
+					return true
+				}
+				for _, st := range blk.List {
+					es, ok := st.(*ast.ExprStmt)
+					if !ok {
+						continue
+					}
+					call, ok := es.X.(*ast.CallExpr)
+					if !ok || call.Ellipsis.IsValid() {
+						continue
+					}
+					// the callee expression must not contain calls (method value on a call result would reorder)
+					if hasCall(call.Fun) {
+						continue
+					}
+					for _, a := range call.Args {
+						inner, isCall := a.(*ast.CallExpr)
+						if !isCall {
+							if hasCall(a) {
+								break
+							}
+							continue
+						}
+						tv, ok := p.TypesInfo.Types[inner]
+						if !ok || tv.Type == nil || tv.IsType() {
+							break
+						}
+						if _, isTuple := tv.Type.(*types.Tuple); isTuple {
+							break
+						}
+						if b, isBasic := tv.Type.(*types.Basic); isBasic && b.Info()&types.IsUntyped != 0 {
+							break
+						}
+						if id, isIdent := inner.Fun.(*ast.Ident); isIdent {
+							if _, isBuiltin := p.TypesInfo.Uses[id].(*types.Builtin); isBuiltin {
+								break
+							}
+							if _, isTypeName := p.TypesInfo.Uses[id].(*types.TypeName); isTypeName {
+								break
+							}
+						}
+						if ftv, ok := p.TypesInfo.Types[inner.Fun]; ok && ftv.IsType() {
+							break // conversion
+						}
+						v := fmt.Sprintf("hoist%d", n)
+						argText := string(src[off(inner.Pos()):off(inner.End())])
+						stmt := string(src[off(es.Pos()):off(inner.Pos())]) + v + string(src[off(inner.End()):off(es.End())])
+						edits = append(edits, edit{off(es.Pos()), off(es.End()), v + " := " + argText + "; " + stmt})
+						n++
+						break
+					}
+				}
+				return true
+			})
+			if len(edits) == 0 {
+				continue
+			}
+			// drop overlapping edits (nested blocks inside closures passed as arguments)
+			sort.Slice(edits, func(i, j int) bool { return edits[i].from > edits[j].from })
+			lastFrom := int(^uint(0) >> 1)
+			for _, e := range edits {
+				if e.to > lastFrom {
+					continue
+				}
+				src = append(src[:e.from], append([]byte(e.text), src[e.to:]...)...)
+				lastFrom = e.from
 			}
 			out[name] = src
 		}
